@@ -29,13 +29,69 @@ def canon_expr(fn, e: ast.AST, subject: Optional[str] = None) -> str:
 
 # ------------------------------------------------------------------------------------------
 # C15
+_IGNORE_HELPERS: Dict[str, Tuple[str, bool]] = {}      # method name -> (its parameter that is looked up, "in" polarity)
+
+
+def _prepare_ignore_helpers(prog) -> None:
+    """Methods that answer "is this name on the ignore list" for their argument: one parameter, every return is a
+    membership test of that parameter in self.ignore_classes (a call of such a method is then an ignore test)."""
+    _IGNORE_HELPERS.clear()
+    for cname in ("PybindWrapper", "MatlabWrapper"):
+        if not prog.has_cls(cname):
+            continue
+        for c in prog.mro(prog.cls(cname)):
+            for mname, fn in c.methods.items():
+                ps = [a.arg for a in fn.args.args if a.arg != "self"]
+                rets = [r.value for r in walk_no_nested(fn) if isinstance(r, ast.Return) and r.value is not None]
+                if len(ps) == 1 and rets and all(isinstance(r, ast.Compare) and len(r.ops) == 1 and isinstance(r.ops[0], (ast.In, ast.NotIn))
+                                                 and unparse(r.comparators[0]) == "self.ignore_classes" and unparse(r.left) == ps[0] for r in rets):
+                    _IGNORE_HELPERS[mname] = (ps[0], isinstance(rets[0].ops[0], ast.In))
+
+
 def _ignore_tests(cls_fn) -> List[ast.Compare]:
-    return [c for c in ast.walk(cls_fn) if isinstance(c, ast.Compare) and len(c.ops) == 1 and isinstance(c.ops[0], (ast.In, ast.NotIn))
-            and unparse(c.comparators[0]) == "self.ignore_classes"]
+    out = [c for c in ast.walk(cls_fn) if isinstance(c, ast.Compare) and len(c.ops) == 1 and isinstance(c.ops[0], (ast.In, ast.NotIn))
+           and unparse(c.comparators[0]) == "self.ignore_classes"]
+    if isinstance(cls_fn, ast.FunctionDef) and cls_fn.name in _IGNORE_HELPERS:
+        return []            # the helper's own test is counted at its call sites
+    for c in ast.walk(cls_fn):
+        if isinstance(c, ast.Call) and isinstance(c.func, ast.Attribute) and unparse(c.func.value) == "self" and c.func.attr in _IGNORE_HELPERS \
+                and len(c.args) == 1:
+            syn = ast.Compare(left=c.args[0], ops=[ast.In() if _IGNORE_HELPERS[c.func.attr][1] else ast.NotIn()],
+                              comparators=[ast.parse("self.ignore_classes", mode="eval").body])
+            ast.copy_location(syn, c)
+            syn._parent = getattr(c, "_parent", None)
+            out.append(syn)
+    return out
+
+
+def rule_ignore_entries_match_whole_names(ctx, rep: Report, rid="X5"):
+    """An ignore entry names one class: the list is only ever consulted by membership (`name in self.ignore_classes`),
+    never walked to compare entries by prefix, pattern or substring - with `re.match(entry, name)` or `startswith` the
+    entry `geo::Point` also removes `geo::Point2` and `geo::PointCloud`."""
+    prog = ctx.prog
+    n = 0
+    for cname in ("PybindWrapper", "MatlabWrapper"):
+        ci = prog.cls(cname)
+        for c in prog.mro(ci):
+            for mname, fn in sorted(c.methods.items()):
+                for a in walk_no_nested(fn):
+                    if not (isinstance(a, ast.Attribute) and isinstance(a.ctx, ast.Load) and unparse(a) == "self.ignore_classes"):
+                        continue
+                    p_ = parent(a)
+                    n += 1
+                    membership = isinstance(p_, ast.Compare) and len(p_.ops) == 1 and isinstance(p_.ops[0], (ast.In, ast.NotIn)) and p_.comparators[0] is a
+                    shown = isinstance(p_, ast.FormattedValue) or (isinstance(p_, ast.Call) and unparse(p_.func) in ("print", "str", "repr", "len", "list", "tuple"))
+                    rep.add(rid, f"{cname}.{mname}:#{sum(1 for o in rep.obs if o.rule == rid and o.construct.startswith(cname + '.' + mname + ':')) + 1}:"
+                                 f"the ignore list is consulted by membership only", membership or shown,
+                            f"`{unparse(stmt_of(a))[:80]}` walks or transforms the ignore list instead of testing membership: entries are then matched by "
+                            f"something weaker than equality (prefix, pattern, substring) and ignoring one class removes others", f"{c.mod.rel}:{a.lineno}")
+    if n < 2:
+        raise AnalysisError(f"{rep.prop}/{rid}: only {n} uses of the ignore list found (each generator consults it at least once)")
 
 
 def rule_one_ignore_key(ctx, rep: Report, rid="X1"):
     prog = ctx.prog
+    _prepare_ignore_helpers(prog)
     for cls, min_sites in (("PybindWrapper", 3), ("MatlabWrapper", 2)):
         ci = prog.cls(cls)
         forms: Dict[str, List[str]] = {}
@@ -60,6 +116,7 @@ def rule_one_ignore_key(ctx, rep: Report, rid="X1"):
 
 def rule_ignore_dominates_matlab(ctx, rep: Report, rid="X2"):
     ci, prog = mw(ctx)
+    _prepare_ignore_helpers(prog)
     fn = prog.method("MatlabWrapper", "wrap_instantiated_class")
     tests = [i for i in fn.body if isinstance(i, ast.If) and _ignore_tests(i.test if isinstance(i.test, ast.AST) else i)]
     tests = [i for i in fn.body if isinstance(i, ast.If) and any(True for _ in _ignore_tests(i.test))]
@@ -95,6 +152,7 @@ def rule_every_class_iteration_filtered(ctx, rep: Report, rid="X2"):
     a local bound to one of these) consults the ignore list before it emits anything: in the loop body, in the
     comprehension's condition, or in the predicate the classes are filtered with (lambda or helper method)."""
     ci, prog = mw(ctx)
+    _prepare_ignore_helpers(prog)
     n = 0
 
     def mentions_classes(e) -> bool:
